@@ -247,6 +247,17 @@ func cmdRun(args []string) int {
 			if ok {
 				fmt.Printf("VIOLATION property=%s replay=%s\n", id, path)
 				fmt.Printf("  entry=%s label=%q (reproduced by concrete re-execution of the real SSA code)\n", e.Name, v.Label)
+				if h.Native && i == 0 {
+					nat, _, nerr := nativeReplay(h, cfg, e, path, false)
+					switch {
+					case nerr != nil:
+						fmt.Printf("  native replay: %v\n", nerr)
+					case nat:
+						fmt.Printf("  native replay: reproduced by `go test` against the natively compiled repository\n")
+					default:
+						fmt.Printf("  native replay: NOT reproduced natively (stub or encoding difference?)\n")
+					}
+				}
 				printModel(v)
 				es = 1
 				nviol++
@@ -422,6 +433,17 @@ func cmdReplay(args []string) int {
 			continue
 		}
 		ok, detail := confirmConcrete(cfg, e, &Violation{Label: cex.Label, Model: cex.Model})
+		if len(args) > 2 && args[2] == "--native" {
+			nat, out, nerr := nativeReplay(h, cfg, e, file, os.Getenv("VX_KEEP") != "")
+			fmt.Printf("native replay: reproduced=%v err=%v\n", nat, nerr)
+			if true {
+				lines := strings.Split(out, "\n")
+				if len(lines) > 40 {
+					lines = lines[len(lines)-40:]
+				}
+				fmt.Println(strings.Join(lines, "\n"))
+			}
+		}
 		if ok {
 			fmt.Printf("VIOLATION property=%s replay=%s\n  reproduced: %s %s\n", id, file, cex.Label, detail)
 			return 1
